@@ -14,19 +14,21 @@ def protos_of(txt):
     for m in re.finditer(r"(?:XRL_EXTERN\s+)?((?:const\s+)?(?:struct\s+)?\w+(?:\s*\*+|\s+\*+|\s+))\s*(\w+)\s*\(([^;{}()]*)\)\s*;", txt):
         ret, name, args = m.group(1).strip(), m.group(2), m.group(3).strip()
         if ret in ("typedef", "return", "else") or name in ("defined",): continue
-        al = []
+        al = []; names = []
         if args and args != "void":
             for a in args.split(","):
                 a = a.strip()
-                if a == "...": al.append("..."); continue
+                if a == "...": al.append("..."); names.append(""); continue
                 a = re.sub(r"(\w+)\s*\[\s*\]", r"* \1", a)
                 toks = a.replace("*", " * ").split()
                 base = [t for t in toks[:-1] if t not in ("const", "struct", "unsigned", "*")]
+                pname = ""
                 if len(toks) >= 2 and re.fullmatch(r"\w+", toks[-1]) and base:
-                    toks = toks[:-1]                                   # drop the parameter name
+                    pname = toks[-1]; toks = toks[:-1]                 # the parameter name is kept aside (SWIG typemaps match on it)
+                names.append(pname)
                 t = " ".join(toks)
                 al.append(re.sub(r"\s*\*\s*", "*", t).strip())
-        res.append({"name": name, "upper": name.upper(), "ret": re.sub(r"\s*\*\s*", "*", re.sub(r"\s+", " ", ret)), "args": al})      # "upper": for the case-insensitive languages (IDL)
+        res.append({"name": name, "upper": name.upper(), "ret": re.sub(r"\s*\*\s*", "*", re.sub(r"\s+", " ", ret)), "args": al, "argnames": names})      # "upper": for the case-insensitive languages (IDL)
     return res
 
 
